@@ -161,8 +161,7 @@ def chacha_dec(key, nonce, aad, ct, tag):
 #             empty, key 1 or key 2; every value a byte string.  The value under 2 (network magic) is never used by the
 #             decoder: its only requirement is that cbor2.loads does not raise on it, and that is what is asked here
 #             (cbor2 also raises on some well-formed items, e.g. OverflowError on [2^64-1, 0] -- no RFC notion)
-#   attr 1  : its FIRST item (the library still uses cbor2.loads here: what follows is ignored): a byte string -> its
-#             content; null -> nothing (the library then has no HD path)
+#   attr 1  : exactly one item, a byte string -> its content
 import cborref as _cb
 
 
@@ -218,14 +217,12 @@ def byron_parse_payload(b):
 
 
 def cbor_parse_bytes(b):
-    """What attribute 1 (the first item of its value) contributes to the decoder's result: the bytes of a CBOR byte
-    string; nothing for CBOR null, which the library takes for "no HD path"; [] = refused."""
+    """Attribute 1: its value is exactly one CBOR item, a byte string -> its content; [] = refused (any other item,
+    also null; bytes after the item; malformed)."""
     try:
-        v = _cb.cb_first(bytes(b))
+        v = _cb.cb_one(bytes(b))
     except ValueError:
         return []
-    if v == _cb.CB_NULL:
-        return [b""]
     return [v] if isinstance(v, bytes) else []
 
 
